@@ -308,10 +308,11 @@ PROPS['C14'] = C14Spec(
     'fixes the number K of back-end solves; then every single fault (round '
     '1..K x {Infeasible, Unbounded, Undefined, Not Solved, time-limit stop '
     'with incumbent, without incumbent} x {transient, persistent} x value '
-    'mode) and a seeded sample of fault pairs is injected, each under a '
+    'mode) is injected, plus every pair of faults when K = 2 (K <= 3 in '
+    'the thorough tier) and a seeded sample of pairs otherwise, each under a '
     'seeded clock plan; non-trivial = some round did not end in a proven '
     'optimum; distinct = distinct event-log digests among those',
-    {'quick': 1500, 'thorough': 30000},
+    {'quick': 1200, 'thorough': 25000},
     required_probes=('cut-short:tl-incumbent', 'cut-short:tl-no-incumbent',
                      'cut-short:status:Not Solved', 'cut-after-first-round'))
 PROPS['C14'].oracle = oracles.c14
